@@ -61,6 +61,14 @@ func init() {
 		Real:            []string{"operator.TimerRegistry", "operator.TimerStore", "operator.KeyGroupPriorityQueue", "util/ds.PartitionedPriorityQueue", "util/ds.SortedCache", "util/ds.Heap", "util/binu", "partitioning.KeySpace", "dkv.DB (all of dkv/)"},
 		Stub:            append([]string{"operator event loop: the harness task calls SetTimer/AdvanceWatermark sequentially as the loop does"}, dkvStub...),
 		Rule:            "each run = one seeded case (timer cache 1 byte..unbounded, 1-8 key groups, 1-3 senders, DKV sizing swarm; 10-260 set/advance/checkpoint+restore operations incl. identical repeats and equal timestamps) under one seeded interleaving with the DB's background tasks; oracle = reference set of pending timers; non-trivial = finished with >= 1 context switch and timers fired; distinct = distinct released-task sequence"}
+	storeSpec := func(q, t int, probes ...string) spec {
+		return spec{Harness: "H-STORE", QuickRuns: q, QuickWallS: 50, ThoroughRuns: t, ThoroughWallS: 1200, Chunk: 500, MandatoryProbes: probes,
+			Real: []string{"storage/snapshots.Store", "storage/snapshots.jobSnapshot", "savepoint artifact code", "generated snapshotpb/jobpb code"},
+			Stub: []string{"locations.StorageLocation -> SimDisk location view (atomic per-call writes, WalkDir listing order)", "connectors.SourceSplitter (opaque blob)", "jobs.Job (harness issues the store calls)"},
+			Rule: "each run = one seeded case (1-4 operators, 1-4 source runners, starting checkpoint id on a base64-alphabet boundary; 10-210 create/savepoint/ack(dup, wrong id, foreign)/finish/crash+restart operations) under one seeded interleaving of the caller with the store's asynchronous write/remove/notify goroutines; oracles = reference checkpoint state machine + independent decoding of every published/removed snapshot file; non-trivial = finished, >= 1 context switch, >= 1 checkpoint published; distinct = distinct released-task sequence"}
+	}
+	specs["C12"] = storeSpec(20000, 1000000, "published", "ack-duplicate", "ack-wrong-id", "ack-unknown-sender", "create-while-pending", "savepoint-folded")
+	specs["C13"] = storeSpec(20000, 800000, "published", "removed-obsolete", "retained-notified")
 	specs["C20"] = spec{Harness: "H-BATCH", QuickRuns: 30000, QuickWallS: 50, ThoroughRuns: 1500000, ThoroughWallS: 1200, Chunk: 500,
 		MandatoryProbes: []string{"flush-size", "flush-timeout", "flush-explicit", "stale-token", "fetch"},
 		Real:            []string{"batching.EventBatcher", "batching.ReorderFetcher", "batching.ReorderBuffer", "clocks.SystemTimer on the bubble's fake clock"},
